@@ -285,6 +285,59 @@ def tryrun_facts(docs):
     return dec_after, s
 
 
+
+def wake_facts(docs):
+    """WakeThreads: every read of m_NumThreadsWaiting goes through an atomic RMW (AtomicAdd / fetch_add) or follows an explicit
+    full fence; WaitForTasks: m_NumThreadsWaiting is incremented by an atomic RMW before the first IsPipeEmpty()"""
+    def method(name):
+        for d in docs:
+            for n, ps in astutil.walk(d):
+                if n.get("kind") == "CXXMethodDecl" and n.get("name") == name and any(c.get("kind") == "CompoundStmt" for c in kids(n)):
+                    return n
+        return None
+    FENCES = ("__sync_synchronize", "atomic_thread_fence", "_mm_mfence", "MemoryBarrier", "__atomic_thread_fence")
+    RMW = ("AtomicAdd", "fetch_add", "__sync_fetch_and_add", "__atomic_fetch_add", "_InterlockedExchangeAdd")
+
+    def called(n):
+        out = []
+        for x, _ in astutil.walk(n):
+            if x.get("kind") in ("CallExpr", "CXXMemberCallExpr"):
+                k = kids(x)
+                for y, _ in astutil.walk(k[0]) if k else []:
+                    nm = (y.get("referencedDecl") or {}).get("name") or (y.get("name") if y.get("kind") == "MemberExpr" else None)
+                    if nm:
+                        out.append((nm, x))
+                        break
+        return out
+    wk, wt = method("WakeThreads"), method("WaitForTasks")
+    if wk is None or wt is None:
+        raise FactError("WakeThreads / WaitForTasks not found")
+    # scheduler side
+    body = [c for c in kids(wk) if c.get("kind") == "CompoundStmt"][0]
+    stmts = kids(body)
+    first_is_fence = bool(stmts) and any(nm in FENCES for nm, _ in called(stmts[0]))
+    inside_rmw = set()
+    for nm, call in called(body):
+        if nm in RMW:
+            for y, _ in astutil.walk(call):
+                inside_rmw.add(id(y))
+    reads = [x for x, _ in astutil.walk(body) if x.get("kind") == "MemberExpr" and x.get("name") == "m_NumThreadsWaiting"]
+    wake_fenced = bool(reads) and (first_is_fence or all(id(x) in inside_rmw for x in reads))
+    # worker side
+    body = [c for c in kids(wt) if c.get("kind") == "CompoundStmt"][0]
+    wait_fenced = False
+    for st in kids(body):
+        cs = called(st)
+        if any(nm == "IsPipeEmpty" for nm, _ in cs):
+            break
+        for nm, call in cs:
+            if nm in RMW and any(y.get("kind") == "MemberExpr" and y.get("name") == "m_NumThreadsWaiting" for y, _ in astutil.walk(call)):
+                wait_fenced = True
+        if wait_fenced:
+            break
+    return wake_fenced, wait_fenced
+
+
 def coq_list(xs):
     return "[" + "; ".join(xs) + "]"
 
@@ -300,9 +353,10 @@ def main():
         order, task, kind, dtor_waits, flag_atomic = asynctask_facts(docs)
         pre, post, clos = async_facts(docs)
         xs = sched_facts(docs)
-        docs2 = dump(repo, inc, os.path.join(repo, "rkcommon/tasking/detail/enkiTS/TaskScheduler.cpp"), "TryRunTask",
+        docs2 = dump(repo, inc, os.path.join(repo, "rkcommon/tasking/detail/enkiTS/TaskScheduler.cpp"), "enki::TaskScheduler",
                      os.path.join(work, "c02_tryrun.json"))
         dec_after, seq = tryrun_facts(docs2)
+        wake_fenced, wait_fenced = wake_facts(docs2)
     except FactError as e:
         sys.stderr.write("gen_facts: %s\n" % e)
         sys.exit(2)
@@ -326,13 +380,16 @@ Definition async_body_src : list aev := %s.
 Definition exec_range_src : list xstmt := %s.
 (* TaskScheduler::TryRunTask: ExecuteRange / AtomicAdd(m_RunningCount) sequence "%s" *)
 Definition tryrun_dec_after_exec_src : bool := %s.
+(* wake-up handshake: WakeThreads reads m_NumThreadsWaiting behind a full barrier / WaitForTasks increments it atomically first *)
+Definition wake_fenced_src : bool := %s.
+Definition wait_fenced_src : bool := %s.
 """ % (coq_list(order), coq_list(task), kind, b(dtor_waits), b(flag_atomic),
-       coq_list(pre), coq_list(post), coq_list(clos), coq_list(xs), seq, b(dec_after))
+       coq_list(pre), coq_list(post), coq_list(clos), coq_list(xs), seq, b(dec_after), b(wake_fenced), b(wait_fenced))
     old = open(out).read() if os.path.exists(out) else None
     if old != txt:
         open(out, "w").write(txt)
-    print("facts: order=%s task=%s get=%s dtor_waits=%s atomic=%s | async pre=%s post=%s body=%s | exec_range=%s tryrun=%s"
-          % (order, task, kind, dtor_waits, flag_atomic, pre, post, clos, xs, seq))
+    print("facts: order=%s task=%s get=%s dtor_waits=%s atomic=%s | async pre=%s post=%s body=%s | exec_range=%s tryrun=%s wake_fenced=%s wait_fenced=%s"
+          % (order, task, kind, dtor_waits, flag_atomic, pre, post, clos, xs, seq, wake_fenced, wait_fenced))
 
 
 if __name__ == "__main__":
